@@ -173,8 +173,14 @@ func VerifC08Directory() {
 			if p.Path == u.path {
 				reported = true
 			}
+			// an injected I/O fault may keep an enclosing directory from being
+			// opened or listed: the unknown entry is then never seen and the
+			// problem is reported for that directory
+			if w.faultsTaken > 0 && vtAtOrBelow(p.Path, u.path) {
+				reported = true
+			}
 		}
-		vAssert(reported, "unknown content is reported as a problem at its path")
+		vAssert(reported, "unknown content is reported as a problem at its path (or, after an I/O fault, at an enclosing directory)")
 	}
 	if sub := dir.kids["a"]; len(unknown) > 0 && unknown[len(unknown)-1].holder != dir {
 		vAssert(sub == unknown[len(unknown)-1].holder, "the parent of unknown content stays")
